@@ -73,6 +73,11 @@ CHECKS = {
          "forms, a battery checks every accessor of the result and of each reachable unit/image/table (types, UTF-8 well-formedness, positive numbers, stream position/length, dims, file metadata vs an independent derivation, "
          "stored document properties reported unchanged, nothing raises, well-formed generated documents are not rejected).",
          "Property strings have no leading/trailing whitespace or control characters; .msg and real .doc piece tables are covered by fixtures and mutants only.", "DESIGN.md §4 C04"),
+ "C10": ("exploration", "Hypothesis-generated member sets packed by reference writers (zipfile, tarfile, an independent 7z writer) with one member corrupted at a time; differential oracle against direct extraction of each member",
+         "Archives in 7 kinds (zip stored/deflated, tar, tar.gz/bz2/xz, 7z with Copy/LZMA/LZMA2 x solid/per-file/mixed x plain/encoded header x attributes x CRCs) over generated member documents of 14 formats, directories, empty files, "
+         "hidden/__MACOSX/nested-archive/unsupported entries and unicode (incl. astral) names: read_archive must yield exactly the supported visible members in order, each with a to_json identical to extracting the member's bytes "
+         "alone under the path 'archive!/member'; a corrupt member removes only itself.",
+         "zipfile/tarfile and the harness's 7z writer are trusted packers; an empty plain tar (undetectable) is outside the domain.", "DESIGN.md §4 C10"),
 }
 NOT_YET = {}
 
